@@ -49,6 +49,9 @@ func main() {
 		budget := 6 * time.Minute
 		if *tier == "thorough" {
 			budget = 45 * time.Minute
+			if id == "C03" || id == "C04" || id == "C18" {
+				budget = 70 * time.Minute // 1.4 million configurations x 31 block steps
+			}
 		}
 		rc.Deadline = rc.Start.Add(budget)
 		props.Active = rc
